@@ -193,10 +193,35 @@ def register(reg):
     reg.lemma("C12.L2c mean-value bound is preserved by adding a bounded piece (induction step)", ["C12.L2"], lemma_mean_step)
     reg.lemma("C12.Lw step weights = measure of the overlap below/above the step position", ["C12.Lw"], lemma_weights)
     for cls in ("SumOverTime", "AvgOverTime"):
+        _register_interp_degenerate(reg, cls)
         for step_mode in (False, True):
             for per_time in ((True, False) if cls == "SumOverTime" else (True,)):
                 _register_interp(reg, cls, step_mode, per_time)
     register_getdata(reg)
+
+
+def _register_interp_degenerate(reg, cls):
+    """requests at / before the oldest buffered entry (and single-entry buffers): the oldest value itself, unpacked (C10.3 / C12)"""
+    def pre(ctx):
+        a = ctx.self
+        d = ctx.get(a, "data")
+        return And(d.n >= 1, times_set(d), sorted_strict(d), files_ok(ctx, d), out_info_set(ctx, a),
+                   Or(d.n == 1, ctx.time.e <= tm(d, z3.IntVal(0))))
+
+    def post(ctx, r):
+        d = ctx.get(ctx.self, "data")
+        v0 = val_in(ctx, d.at(z3.IntVal(0)).items[1])
+        want = v0
+        if cls == "SumOverTime":
+            # per-time sums: the oldest value counts for the configured initial interval
+            want = If(ctx.get(ctx.self, "_per_time").e, v0 * (z3.ToReal(ctx.get(ctx.self, "_initial_interval").e) / US), v0)
+        return {"a payload, not a spill file name": is_payload(r), "the oldest buffered value": res_e(r) == want}
+
+    reg.add(Contract(
+        f"{TI}.{cls}._interpolate", self_cls=cls, props=["C12.2" if cls == "SumOverTime" else "C12.3", "C10.3"],
+        params={"time": Time}, result=Pay, requires=pre, ensures=post, modifies=lambda ctx: [], raises={},
+        name="_interpolate<at-or-before-oldest>", primary=False,
+    ))
 
 
 def _register_interp(reg, cls, step_mode, per_time):
